@@ -63,7 +63,7 @@ def literal_eval(seq, in_bits):
         op = rq[0]
         a = [env[x] for x in rq[1:]]
         if op == "x":
-            v = z3.Xor(a[0], a[1])
+            v = a[0] != a[1]
         elif op == "a":
             v = z3.And(a[0], a[1])
         elif op == "o":
@@ -75,8 +75,8 @@ def literal_eval(seq, in_bits):
         elif op == "m":
             v = z3.If(a[0], a[1], a[2])
         else:
-            v = z3.Xor(z3.Xor(a[0], a[1]), a[2])
-            env["r%d'" % k] = z3.Or(z3.And(a[0], a[1]), z3.And(a[2], z3.Xor(a[0], a[1])))
+            v = (a[0] != a[1]) != a[2]
+            env["r%d'" % k] = z3.Or(z3.And(a[0], a[1]), z3.And(a[2], a[0] != a[1]))
         env["r%d" % k] = v
     return env
 
